@@ -367,6 +367,17 @@ carquet_status_t carquet_page_writer_add_values(
         if (lstatus != CARQUET_OK) {
             return lstatus;
         }
+    } else if (writer->max_rep_level > 0) {
+        /* No repetition levels given for a repeated column: every entry starts
+         * a new row.  The page still needs its level block. */
+        const int16_t zero = 0;
+        for (int64_t i = 0; i < num_values; i++) {
+            carquet_status_t lstatus = carquet_buffer_append(
+                &writer->rep_levels_buffer, &zero, sizeof(int16_t));
+            if (lstatus != CARQUET_OK) {
+                return lstatus;
+            }
+        }
     }
 
     /* Encode values using PLAIN encoding.
